@@ -100,7 +100,7 @@ def check(run, replay_case=None):
             plans.append(make_plan(rng, [2, 4, 8, 16][i % 4], focus))
             foci.append(focus)
     jobs = [(run.workdir, i, p) for i, p in enumerate(plans)]
-    with ThreadPoolExecutor(max_workers=8) as ex:
+    with ThreadPoolExecutor(max_workers=12) as ex:
         results = list(ex.map(run_trial, jobs))
     winners = {}
     for idx, plan, out, err in results:
@@ -132,7 +132,7 @@ def check(run, replay_case=None):
         uses = [(e['t_call'], e['t_ret']) for e in evs if e['o'] == 'use_limit']
         w = obs[0]['limit']
         # the sweep and the probes run after the race and initialise the cell if nobody did: that is a "use"
-        once_register(run, case, 'max_allocation_bytes', sets, uses + ([] if sets or uses else [(0, 0)]), w, DEFAULT_L)
+        once_register(run, case, 'max_allocation_bytes', sets, uses + [(10 ** 18, 10 ** 18 + 1)], w, DEFAULT_L)
         pk = out['peek']
         if pk and (sets or uses) and pk['limit'] is not None and pk['limit'] != w:
             run.violation('peek-differs-from-reported setting=max_allocation_bytes', 'the cell holds %r but callers are told %r' % (pk['limit'], w), case)
@@ -142,13 +142,14 @@ def check(run, replay_case=None):
             winners['limit'][str(sorted(set(evs[i]['t'] for i in win))[:1])] += 1
         # ---- human readable: asking for true returns v, asking for false returns v
         sets = [(e['proposed'], e['ret'], e['t_call'], e['t_ret']) for e in evs if e['o'] == 'set_hr']
-        uses = [(e['t_call'], e['t_ret']) for e in evs if e['o'] == 'use_hr' or e['o'] in ('use_limit',) and False]
+        # building a datum reader reads the human-readable default: use_limit is a use of this setting too
+        uses = [(e['t_call'], e['t_ret']) for e in evs if e['o'] in ('use_hr', 'use_limit')]
         hr_t, hr_f = obs[0]['hr_when_asked_true'], obs[0]['hr_when_asked_false']
-        if sets or uses:
+        if True:
             if hr_t != hr_f:
                 run.violation('human-readable-flag-not-fixed', 'after the race the setter returns its own argument', case, observed=obs[0])
             else:
-                once_register(run, case, 'serde_human_readable', sets, uses, hr_t, False)
+                once_register(run, case, 'serde_human_readable', sets, uses + [(10 ** 18, 10 ** 18 + 1)], hr_t, False)
         # ---- validators and comparator: exactly one setter told Ok unless a use preceded all of them
         for which in ('name', 'namespace', 'symbol', 'field', 'comparator'):
             if which == 'comparator':
@@ -193,6 +194,10 @@ def check(run, replay_case=None):
                     run.violation('overflowing-count-accepted guard=%s' % g, 'an element count whose byte size overflows was accepted', dict(case, probe=s))
                 continue
             accepted = r != 'limit'
+            if d > 2 ** 63 - 1:
+                # no allocator can provide more than isize::MAX bytes: an error of either kind is right, only a panic is wrong
+                run.count('guard_probes_beyond_isize_max')
+                continue
             if d <= wlim and not accepted:
                 run.violation('guard-rejects-length-within-limit guard=%s' % g, 'declared %d <= limit %d was rejected' % (d, wlim), dict(case, probe=s, limit=wlim))
             elif d > wlim and accepted:
